@@ -1,4 +1,5 @@
 //! pkverif: conformance harness binding the TLA+ specifications in /verif/spec to the code in /repo.
+mod authdata;
 mod cer;
 mod cerclient;
 mod cerrun;
@@ -21,6 +22,7 @@ fn main() {
     }
     let args = util::Args::parse(&raw[1..]);
     match raw[0].as_str() {
+        "authdata" => authdata::main(&args),
         "cer" => cerrun::main(&args),
         "conc" => conc::main(&args),
         "ctapcodec" => ctapcodec::main(&args),
